@@ -37,6 +37,16 @@ class UserBase(BaseException):
     pass
 
 
+def _make_twin():
+    class UserErr(KeyError):  # a DIFFERENT class that happens to share the name of sched.UserErr
+        pass
+
+    return UserErr
+
+
+TwinErr = _make_twin()
+
+
 class Unpicklable(Exception):
     def __init__(self, msg):
         super().__init__(msg)
@@ -51,6 +61,7 @@ EXC_KINDS = {
     "U": lambda k: UserErr(f"msg-{k}", extra=(k, "x")),
     "B": lambda k: UserBase(f"msg-{k}"),
     "P": lambda k: Unpicklable(f"msg-{k}"),
+    "W": lambda k: TwinErr(f"msg-{k}"),
 }
 
 
@@ -76,8 +87,9 @@ class F:
 
 
 class ControlledExecutor(Executor):
-    def __init__(self, max_workers):
+    def __init__(self, max_workers, legacy=False):
         self._max_workers = max_workers
+        self.legacy = legacy  # emulate multiprocessing.pool workers: they only catch Exception; a BaseException kills the worker and the job never completes
         self.pending = []  # (future, fn, args, kwargs)
         self.submitted = []  # list of batches: list of keys
         self.max_pending = 0
@@ -96,7 +108,11 @@ class ControlledExecutor(Executor):
         fut, fn, args, kwargs = self.pending.pop(i)
         try:
             res = fn(*args, **kwargs)
-        except BaseException as e:  # noqa: BLE001  (what a real pool does)
+        except Exception as e:  # noqa: BLE001  (what a real pool does)
+            fut.set_exception(e)
+        except BaseException as e:  # noqa: BLE001
+            if self.legacy:
+                return  # worker died; the future is never resolved
             fut.set_exception(e)
         else:
             fut.set_result(res)
@@ -303,12 +319,14 @@ class Recorder:
 ENTRIES = ("async", "threaded", "mp", "mp_noopt", "executor", "sync")
 
 
-def run_entry(entry, dsk, keys, nworkers, chunksize, chooser, callbacks=None, on_choice=None):
+def run_entry(entry, dsk, keys, nworkers, chunksize, chooser, callbacks=None, on_choice=None, cache=None, legacy=False):
     """One execution of a real scheduler entry point under the controlled executor.
     -> (status, value_or_exc, executor, harness)"""
-    ex = ControlledExecutor(nworkers)
+    ex = ControlledExecutor(nworkers, legacy=legacy)
     del LOG[:]
     kw = {}
+    if cache is not None:
+        kw["cache"] = cache
     if callbacks is not None:
         kw["callbacks"] = callbacks
     with Harness(ex, chooser, on_choice) as h:
